@@ -137,6 +137,8 @@ type Node struct {
 	// Orphans: vertices that were reported as arriving before a parent on this node. While one of them is neither
 	// live nor checkpointed the background retry ticker may change the ledger at any moment.
 	Orphans map[H]bool
+	// Dropped: vertices that left this node's live DAG without being checkpointed (tentative tips dropped as invalid)
+	Dropped []H
 }
 
 // BackgroundMayAct reports whether the retry ticker may still admit (or give up on) a parked vertex.
